@@ -96,6 +96,8 @@ def expr(e):
         return sub_expr(e["l"], p) + " " + OPTEXT[e["op"]] + " " + sub_expr(e["r"], p, right=True)
     if k == "err":
         return "ERR"
+    if k == "cref":
+        return e["n"] + (SUFFIX[e["sfx"]] if e.get("sfx") else "")
     if k == "fcall":
         name = e["n"] + SUFFIX[e["t"]]
         if not e["args"]:
@@ -259,7 +261,7 @@ def stmt(o, s, ind):
             text += name + SUFFIX[s["t"]] + arr
         o.emit(text, sid, ind)
     elif k == "const":
-        o.emit("CONST " + s["n"] + (SUFFIX[s["t"]] if s.get("suffixed", True) else "") + " = " + expr(s["e"]), sid, ind)
+        o.emit("CONST " + s["n"] + (SUFFIX[s["t"]] if s["t"] and s.get("suffixed", True) else "") + " = " + expr(s["e"]), sid, ind)
     elif k == "exit":
         o.emit("EXIT " + ("SUB" if s["what"] == "sub" else "FUNCTION"), sid, ind)
     elif k == "end":
